@@ -54,17 +54,47 @@ def same_code(base_text, ann_text, nonce=None):
     if nonce is None:
         if sa == sb and [p for _n, p in la] == [p for _n, p in lb]:
             return None
+        if _resolved(pa, None) == _resolved(pb, None):
+            return None     # same instructions, every branch designates the same instruction
         return _diff(sb, sa)
     # Nonce: exactly one extra `byte <nonce>; pop` (or none at all when the Nonce sits in code the compiler
-    # drops as unreachable, e.g. the step of a For whose body always breaks)
-    if _strip_pos(sa) == _strip_pos(sb):
+    # drops as unreachable, e.g. the step of a For whose body always breaks).  Labels are not instructions: a
+    # branch is compared by the INSTRUCTION it targets (the Nonce's own block may add a second label in front of
+    # an instruction that already has one).
+    rb_ = _resolved(pb, None)
+    if _resolved(pa, None) == rb_:
         return None
     for i in range(len(sa) - 1):
         if sa[i][0] in ("byte", "pushbytes") and sa[i][1] == (nonce,) and sa[i + 1] == ("pop", ()):
-            cand = sa[:i] + sa[i + 2:]
-            if _strip_pos(cand) == _strip_pos(sb):
+            if _resolved(pa, i) == rb_:
                 return None
     return "no removal of one `byte <nonce>; pop` pair makes the streams equal"
+
+
+def _resolved(p, cut):
+    """instruction stream with every branch target replaced by the index of the instruction it designates;
+    cut = i removes instructions i and i+1 (targets behind them move up by two)"""
+    def pos(name):
+        t = p.labels.get(name)
+        if t is None:
+            return name
+        if cut is not None and t > cut:
+            t = max(cut, t - 2)
+        return ("@", t)
+    out = []
+    for k, ins in enumerate(p.instrs):
+        if cut is not None and k in (cut, cut + 1):
+            continue
+        args = []
+        for a in ins.args:
+            if isinstance(a, str) and ins.op in ("b", "bz", "bnz", "callsub"):
+                args.append(pos(a))
+            elif isinstance(a, list):
+                args.append(tuple(pos(x) if isinstance(x, str) else x for x in a))
+            else:
+                args.append(a)
+        out.append((ins.op, tuple(args)))
+    return out
 
 
 def _strip_pos(stream):
